@@ -5,7 +5,11 @@
 (b) correspondence with the Coq model (filled in by the Coq side);
 (c) concurrency: deterministic schedules of 2-3 clients with their own Cache objects on one directory
     (continuous presence S1, popitem accounting S2) and the replayed witness of the known finding
-    `lookup_overlapping_replace` (lock-free lookup overlapping the replacement of a file-backed value).
+    `lookup_overlapping_replace` (lock-free lookup overlapping the replacement of a file-backed value); S3: two clients whose
+    value files share one sub-directory (a Disk with its own filename() layout), the removal by one placed at every point inside the
+    other's store of a file-backed value, judged by linearizability against OrderedDict.
+Integers at the edges of the 32 / 53 / 63 / 64 / 128-bit representations are keys, values and components of tuple keys in every stream
+(P_EDGE) and, each of them, in the directed histories of directed_ints.
 """
 import os
 import pickle
@@ -32,6 +36,8 @@ TRUSTED = [
     'tools/emit_persistent.py templates: every Deque/Index method body is matched against a source template, the holes are '
     'compiled to Gen_Persistent.v and pinned by proofs/PersistentBridge.v',
     'the key/value encoding of the correspondence (Python objects -> integers, equal objects equal ids)',
+    'props/c05.SharedDirDisk (a Disk subclass whose filename() puts every value file into the sub-directory "shared") stands for the custom file '
+    'layouts under which two clients\' value files share a sub-directory; with the default layout two random names share one with probability 2**-16',
     'contention: a raw sqlite3 connection executing BEGIN IMMEDIATE on the index\'s cache.db stands for another client holding the write lock; it is '
     'released from a sched.Tracer hook on the BEGIN statements of the calling thread, the handle under test has SQLite timeout 0 (props/c11.Contention)',
 ]
@@ -47,6 +53,13 @@ ASSUMPTIONS = [
     'mappings compared with == / != have distinct keys (they are dicts)',
     'a constructor whose source of pairs fails: the reference for the directory\'s contents is OrderedDict().update(source), i.e. the pairs delivered '
     'before the failure (Index(directory, source) updates the index stored in the directory)',
+    'integer edges: no float key equal to an integer key beyond 2**63 is used (2**63 == 2.0**63 in Python, but the cache stores the one pickled '
+    'and the other as REAL: the first assumption)',
+    'shared-directory schedules (S3): each client makes two calls; the removal is a call on the other client\'s own key or a popitem; the pair '
+    'setdefault x popitem(last=True) is run only with VERIF_C12_SETDEFAULT_VS_POPITEM=1 (setdefault is a lookup / add loop, and a popitem that '
+    'removes the key between the add and the second lookup makes it add the key a second time)',
+    'setdefault race (S4): setdefault is paired only with calls that remove nothing (setdefault, [] =, update, lookup); against a removal of the same '
+    'key see the S3 remark above',
     'contended histories contain no unpickle events (they build a handle with the default 60 s SQLite timeout) and handle events are not contended',
 ]
 
@@ -64,6 +77,16 @@ LONG_VALUES = ['a' * 40, b'y' * 40, tuple(range(12)),
                'nel\x85 ls\u2028 ps\u2029 ff\x0c vt\x0b nul\x00 end', '\r' * 9, '\r\n' * 5, '\n\r' * 5, '\U0001F600\r\n\xe9\r' * 3,
                b'bytes\r\nwith\rline\nendings\x00', ('pickled\r\n', b'\r', 'a\rb'), ('p', ('nested\r\n' * 3, 1.5, None))]
 KINDS = ['plain', 'filebacked', 'fanout', 'django']
+
+# Integers at the edges of the machine representations a store may use (32 / 53 / 63 / 64 / 128 bits, both signs, +-1 around each):
+# an OrderedDict takes any int as key and as value.  Drawn with probability P_EDGE wherever a key or a value is drawn; every one of
+# them goes through directed_ints on every kind.  Keys: the ints and tuples holding them.  (No float of equal magnitude among the
+# KEYS: 2**63 == 2.0**63 in Python but not for the cache, see ASSUMPTIONS.)
+INT_EDGES = sorted({s * (2 ** b) + d for b in (31, 53, 63, 64) for s in (1, -1) for d in (-1, 0, 1)} | {2 ** 32, 2 ** 127, -2 ** 127, 10 ** 30})
+EDGE_KEYS = INT_EDGES + [(e, 'c') for e in INT_EDGES if abs(abs(e) - 2 ** 63) <= 1 or abs(e) in (2 ** 31, 2 ** 53, 2 ** 64)] \
+    + [(2 ** 63, -2 ** 63), (2 ** 63 - 1, (2 ** 63,)), (-2 ** 63 - 1, 2 ** 64)]
+EDGE_VALUES = INT_EDGES + [2.0 ** 63, -2.0 ** 63, 2.0 ** 53, (2 ** 63, -2 ** 63 - 1), (2 ** 63 - 1, 2.0 ** 63, 'v')]
+P_EDGE = 0.04
 
 # Values at and above the DEFAULT disk_min_file_size of an Index (32 KiB), so that the default kinds (Index(directory),
 # FanoutCache.index, DjangoCache.index) hold file-backed text, bytes and pickles too.  They are written as source expressions:
@@ -514,6 +537,8 @@ def weighted(rng, table):
 def pick_value(rng, kind):
     if rng.random() < P_BIG.get(kind, 0.0):
         return rng.choice(BIG_VALUES)
+    if rng.random() < P_EDGE:
+        return rng.choice(EDGE_VALUES)
     if kind == 'filebacked' and rng.random() < 0.5:
         return rng.choice(LONG_VALUES)
     return rng.choice(VALUES)
@@ -545,10 +570,16 @@ def newline_variant(rng, v):
 
 
 def any_key(rng):
+    if rng.random() < P_EDGE:
+        return rng.choice(EDGE_KEYS)
     return None if rng.random() < 0.04 else rng.choice(KEYS)
 
 
 def absent_key(rng, ref):
+    if rng.random() < P_EDGE:
+        cand = [k for k in EDGE_KEYS if k not in ref]
+        if cand:
+            return rng.choice(cand)
     cand = [k for k in KEYS_ALL if k not in ref]
     if rng.random() < 0.85:
         c2 = [k for k in cand if k is not None]
@@ -920,6 +951,69 @@ def directed_values(ctx, res, stats, histories, thorough):
     stats['directed_value_histories'] = n
 
 
+def int_edge_history(edges, salt):
+    """(init, ops): every integer of `edges` as key and as value -- stored by [], setdefault, update and the constructor, handed out by
+    every lookup, kept over reopen / unpickle, removed by del, pop, popitem -- and as component of a tuple key."""
+    init = [(edges[0], 'init'), ('holds', edges[-1])]
+    ops = []
+    for i, e in enumerate(edges):
+        ops += [('setitem', [e, i]), ('setitem', ['v%d' % i, e]), ('getitem', [e]), ('contains', [e]), ('get', ['v%d' % i, None])]
+        ops += [('setitem', [(e, 'c'), e]), ('setdefault', [(e,), e]), ('getitem', [(e, 'c')])]
+    ops += [('keys', []), ('values', []), ('reopen', []), ('items', [])]
+    for i, e in enumerate(edges):
+        f = edges[(i + 1) % len(edges)]
+        ops += [('setitem', [e, f]), ('get', [e, None]), ('update', [[(f, e), ((f, e), (e, f))]]), ('getitem', [(f, e)])]
+        ops += [[('pop', [e]), ('delitem', [e]), ('pop_default', [e, f])][(i + salt) % 3], ('contains', [e]), ('get', [e, f])]
+        ops += [('setdefault', [e, e]), ('delitem', [(e, 'c')])]
+        if i % 3 == salt % 3:
+            ops += [('pickle' if i % 2 else 'reopen', []), ('getitem', [e])]
+    ops += [('peekitem', [True]), ('popitem', [True]), ('popitem', [False]), ('reversed', []), ('reopen', []), ('items', []), ('len', [])]
+    return init, ops
+
+
+def directed_ints(ctx, res, stats, histories, thorough):
+    """Every integer of INT_EDGES through every kind of Index as key, as value and inside tuple keys (int_edge_history); same oracle
+    (OrderedDict after every call) and the same replay format as the generated histories; a divergence is shrunk."""
+    def mkdir():
+        return ctx.scratch('c12i')
+
+    per = 5
+    chunks = [INT_EDGES[i:i + per] for i in range(0, len(INT_EDGES), per)]
+    n = 0
+    shrunk = {}
+    for ki, kind in enumerate(KINDS):
+        for ci, edges in enumerate(chunks):
+            if not thorough and kind in ('fanout', 'django') and (ci + ki + ctx.seed) % 2:
+                continue        # quick tier: the two derived kinds take every other chunk (plain and file-backed take all)
+            hid = 'ints-%s-%d' % (kind, ci)
+            init, ops = int_edge_history(edges, ci + ki + ctx.seed)
+            events, div, at = run_history(kind, init, ops, mkdir, stats=stats)
+            n += 1
+            if thorough or (n + ctx.seed) % 3 == 0:
+                # pool of the model correspondence: these histories are long (every call carries the whole contents), a third of them in the quick tier
+                histories.append({'id': hid, 'kind': kind, 'stream': 'directed', 'init': list(init), 'events': events})
+            before = list(OrderedDict(init).items())
+            for e in events:
+                res.count(['ints', kind, e['op'], crepr(e['args']), crepr(before)], nontrivial=True)
+                before = e['items']
+            if div is None:
+                continue
+            sig = div['sig']
+            upto = ops[:at + 1] if at is not None and at >= 0 else []
+            if shrunk.get(sig, 0) >= 3:
+                continue
+            shrunk[sig] = shrunk.get(sig, 0) + 1
+            sinit, sops = shrink(kind, init, upto, mkdir, sig, budget=120) if upto else (init, upto)
+            _, sdiv, sat = run_history(kind, sinit, sops, mkdir)
+            if sdiv is None or sdiv['sig'] != sig:
+                sinit, sops, sdiv = init, upto, div
+            desc = 'Index diverges from OrderedDict (%s) at %s: expected %s observed %s' % (
+                sdiv['what'], 'init' if not sops else '%s(%s)' % (sops[-1][0], ', '.join(rl(sops[-1][1]))[:200]),
+                sdiv['expected'][:200], sdiv['observed'][:200])
+            res.violations.append(fw.Violation(sig, desc, history_case(hid, kind, 'directed', sinit, sops, sdiv)))
+    stats['directed_int_histories'] = n
+
+
 # ---------------------------------------------------------------------------
 # (b) correspondence
 
@@ -933,13 +1027,21 @@ class Encoder:
 
     def __init__(self):
         self.table = []
+        self.numbers = []       # numbers outside the directly encoded range (the integer edges): numbered by ==, whatever their type
 
     def id(self, v):
         if isinstance(v, (bool, int, float)):
-            x = 2 * v
-            if x != int(x) or abs(x) > 10 ** 6:
+            if v != v or v in (float('inf'), float('-inf')):
                 raise Unencodable(repr(v))
-            return int(x)
+            if abs(v) <= 500000 and 2 * v == int(2 * v):
+                return int(2 * v)
+            if isinstance(v, float) and v != int(v):
+                raise Unencodable(repr(v))
+            for i, t in enumerate(self.numbers):
+                if t == v:
+                    return 30000000 + i
+            self.numbers.append(v)
+            return 30000000 + len(self.numbers) - 1
         if v is None:
             return 10000000
         if isinstance(v, (str, bytes, tuple)):
@@ -1200,13 +1302,35 @@ def conc_perform(idx, op):
         return idx.popitem(last=op[1])
     if name == 'len':
         return len(idx)
+    if name == 'del':
+        del idx[op[1]]
+        return None
+    if name == 'pop':
+        return idx.pop(op[1])
+    if name == 'update':
+        idx.update(list(op[1]))
+        return None
+    if name == 'contains':
+        return op[1] in idx
     raise ValueError(name)
 
 
-def run_conc(directory, init, programs, schedule):
+def shared_dir_disk():
+    """The Disk subclass of props/c05 whose filename() puts every value file into ONE sub-directory (a documented customisation)."""
+    from props import c05
+    return c05.SharedDirDisk
+
+
+def run_conc(directory, init, programs, schedule, disk=None):
     """Pre-populates `directory` with `init` (list of pairs), runs programs (list of op lists) under the
-    deterministic scheduler.  Returns (scheduler result, per-client outcome lists, final items or None)."""
-    cache = diskcache.Cache(directory, disk_min_file_size=8, eviction_policy='none')
+    deterministic scheduler.  Returns (scheduler result, per-client outcome lists, final items or None).
+    disk: the Disk class every client (and the pre-population) opens the directory with (default diskcache.Disk)."""
+    kw = {'disk': disk} if disk is not None else {}
+
+    def Cache(directory, **settings):
+        settings.update(kw)
+        return diskcache.Cache(directory, **settings)
+    cache = Cache(directory, disk_min_file_size=8, eviction_policy='none')
     idx0 = diskcache.Index.fromcache(cache)
     for k, v in init:
         idx0[k] = v
@@ -1218,7 +1342,7 @@ def run_conc(directory, init, programs, schedule):
 
     def make(cid):
         def warm():
-            c = diskcache.Cache(directory, timeout=0, disk_min_file_size=8, eviction_policy='none')
+            c = Cache(directory, timeout=0, disk_min_file_size=8, eviction_policy='none')
             state[cid] = diskcache.Index.fromcache(c)
             len(state[cid])
 
@@ -1243,7 +1367,7 @@ def run_conc(directory, init, programs, schedule):
     result = sch.run([p for _, p in pairs], list(schedule), warmups=[w for w, _ in pairs])
     final = None
     if not result['overflow']:
-        c = diskcache.Cache(directory, disk_min_file_size=8, eviction_policy='none')
+        c = Cache(directory, disk_min_file_size=8, eviction_policy='none')
         try:
             final = list(diskcache.Index.fromcache(c).items())
         finally:
@@ -1385,6 +1509,222 @@ def monitor_s2(init, programs, result, outcomes, final):
     return out
 
 
+def ref_conc(ref, op):
+    """The call `op` of a client on the OrderedDict: ('ok', result) or ('KeyError',)."""
+    name = op[0]
+    try:
+        if name == 'get':
+            return ('ok', ref[op[1]])
+        if name == 'set':
+            ref[op[1]] = op[2]
+            return ('ok', None)
+        if name == 'setdefault':
+            return ('ok', ref.setdefault(op[1], op[2]))
+        if name == 'popitem':
+            if not ref:
+                return ('KeyError',)
+            return ('ok', ref.popitem(last=op[1]))
+        if name == 'len':
+            return ('ok', len(ref))
+        if name == 'del':
+            del ref[op[1]]
+            return ('ok', None)
+        if name == 'pop':
+            return ('ok', ref.pop(op[1]))
+        if name == 'update':
+            ref.update(list(op[1]))
+            return ('ok', None)
+        if name == 'contains':
+            return ('ok', op[1] in ref)
+    except KeyError:
+        return ('KeyError',)
+    raise ValueError(name)
+
+
+def linearizable(init, calls, final):
+    """calls[c] = [(op, outcome, first, last)] per client in program order (first / last: positions of the call's first and last
+    event in the global log, None if it made none).  True iff some order of all calls that keeps each client's order and puts a
+    call that ended before another one started first gives, on an OrderedDict holding `init`, every observed outcome and `final`."""
+    n = len(calls)
+
+    def ok(o, r):
+        if o[0] == 'KeyError':
+            return r[0] == 'KeyError'
+        return o[0] == 'ok' and r[0] == 'ok' and teq(o[1], r[1])
+
+    def go(ix, ref):
+        if all(ix[c] == len(calls[c]) for c in range(n)):
+            return final is None or teq(list(ref.items()), list(final))
+        for c in range(n):
+            if ix[c] == len(calls[c]):
+                continue
+            op, o, first, last = calls[c][ix[c]]
+            if first is not None and any(ix[d] < len(calls[d]) and calls[d][ix[d]][3] is not None and calls[d][ix[d]][3] < first
+                                         for d in range(n) if d != c):
+                continue        # a pending call of another client ended before this one started
+            r2 = OrderedDict(ref)
+            if ok(o, ref_conc(r2, op)) and go(ix[:c] + (ix[c] + 1,) + ix[c + 1:], r2):
+                return True
+        return False
+    return go((0,) * n, OrderedDict(init))
+
+
+def monitor_s3(init, programs, result, outcomes, final, prefix='index_shared_dir'):
+    """Clients on distinct keys: every call returns (no exception but the KeyError of a mapping) and results plus final contents are
+    those of the calls made one after the other, in an order compatible with real time, on an OrderedDict."""
+    out = []
+    n = len(programs)
+    log = result['log']
+    pos = positions(log, n)
+    calls = []
+    for cid in range(n):
+        if result['errors'][cid] is not None or outcomes[cid] is None:
+            out.append((prefix + '_error', 'client %d died: %r' % (cid, result['errors'][cid]), {'client': cid}))
+            continue
+        mine = []
+        for i, (op, o, n0, n1) in enumerate(outcomes[cid]):
+            if o[0] == 'error':
+                evs = pos[cid][n0:n1]
+                where = {'client': cid, 'op_index': i, 'op': [op[0]] + rl(op[1:]), 'outcome': [o[0], repr(o[1])]}
+                if evs:
+                    where['log_window'] = short_log(log, evs[0], evs[-1] + 1)
+                out.append((prefix + '_error', 'client %d: %s(%s) raised %s where an OrderedDict returns'
+                            % (cid, op[0], ', '.join(rl(op[1:]))[:120], o[1][:200]), where))
+            evs = pos[cid][n0:n1]
+            mine.append((op, o, evs[0] if evs else None, evs[-1] if evs else None))
+        calls.append(mine)
+    if not out and not linearizable(init, calls, final):
+        out.append((prefix + '_not_linearizable',
+                    "no order of the clients' calls gives these results and final contents on an OrderedDict: %s; final %s"
+                    % ([[('%s(%s)' % (op[0], ', '.join(rl(op[1:]))[:60]), o[0], crepr(o[1])[:60]) for op, o, _, _ in cs] for cs in calls],
+                       crepr(final)[:300]),
+                    {'results': [[[o[0], crepr(o[1])[:80]] for _, o, _, _ in cs] for cs in calls], 'final': crepr(final)[:600]}))
+    return out
+
+
+S3_STORES = ('set', 'set_over_inline', 'setdefault', 'update')
+S3_REMOVALS = ('replace_small', 'del', 'pop', 'popitem_first', 'popitem_last')
+
+
+def s3_programs(store, removal, va, vb):
+    """Client 0 stores the file-backed value va under 'ka' (by [], setdefault or update; new key or over an inline value) and reads
+    it; client 1 removes its own file-backed value vb of 'kb' (replaced by a small value, del, pop, popitem) and looks 'ka' up."""
+    init = [('kb', vb)] + ([('ka', 0)] if store == 'set_over_inline' else [])
+    a = {'set': ('set', 'ka', va), 'set_over_inline': ('set', 'ka', va), 'setdefault': ('setdefault', 'ka', va),
+         'update': ('update', [('ka', va), ('kc', 3)])}[store]
+    b = {'replace_small': ('set', 'kb', 'small'), 'del': ('del', 'kb'), 'pop': ('pop', 'kb'),
+         'popitem_first': ('popitem', False), 'popitem_last': ('popitem', True)}[removal]
+    return init, [[a, ('get', 'ka')], [b, ('contains', 'ka')]]
+
+
+def shared_dir_race(ctx, res, stats, thorough):
+    """S3: two clients on one Index directory whose Disk keeps every value file in one sub-directory.  The removal made by client 1
+    (its file is the only one there, so the directory is pruned) is placed at every point inside client 0's store of a file-backed
+    value: after i = 0 .. all of client 0's events client 1 runs to its end, then client 0 goes on."""
+    disk = shared_dir_disk()
+    # setdefault is a lookup / add loop: when the other client's popitem(last=True) removes the key between the add and the second
+    # lookup, setdefault adds it again (one setdefault, one popitem, key still there).  That pair is run only on request; everywhere
+    # else the removal cannot touch the key whose store it overlaps before that store's call has returned
+    both = os.environ.get('VERIF_C12_SETDEFAULT_VS_POPITEM') == '1'
+    combos = [(s, r) for s in S3_STORES for r in S3_REMOVALS if both or (s, r) != ('setdefault', 'popitem_last')]
+    if not thorough:
+        combos = [(s, r) for j, (s, r) in enumerate(combos) if s == 'set' and r in ('replace_small', 'popitem_last') or (j + ctx.seed) % 3 == 0]
+    per_sig = {}
+    nruns = 0
+    for ci, (store, removal) in enumerate(combos):
+        va, vb = 'A%d-' % ci * 12, ('b%d-' % ci * 12 if ci % 2 else ('pickled', 'b%d' % ci * 9, ci))
+        init, programs = s3_programs(store, removal, va, vb)
+        d = ctx.scratch('c12s')
+        try:
+            result, outcomes, final = run_conc(d, init, programs, [0] * 400, disk=disk)
+        finally:
+            shutil.rmtree(d, ignore_errors=True)
+        nstore = outcomes[0][0][3] if outcomes[0] else 0         # events of client 0's store when nobody interferes
+        for i in range(0, nstore + 1):
+            schedule = [0] * i + [1] * 40 + [0] * 80
+            d = ctx.scratch('c12s')
+            try:
+                result, outcomes, final = run_conc(d, init, programs, schedule, disk=disk)
+            finally:
+                shutil.rmtree(d, ignore_errors=True)
+            if result['overflow']:
+                stats['schedules_overflowed'] = stats.get('schedules_overflowed', 0) + 1
+                continue
+            nruns += 1
+            used = result['schedule_used']
+            res.count(['sched', 'S3', store, removal, used], nontrivial=switches(used) >= 1)
+            if nruns == 1 or (i == 2 and ci == 0):
+                res.sample({'scenario': 'S3', 'init': crepr(init), 'programs': [[crepr(list(op)) for op in p] for p in programs],
+                            'log': short_log(result['log'])[:60],
+                            'outcomes': [[[o[0], crepr(o[1])[:40]] for _, o, _, _ in (oc or [])] for oc in outcomes]}, limit=8)
+            seen = set()
+            for sig, desc, extra in monitor_s3(init, programs, result, outcomes, final):
+                if sig in seen or per_sig.get(sig, 0) >= 4:
+                    continue
+                seen.add(sig)
+                per_sig[sig] = per_sig.get(sig, 0) + 1
+                extra = dict(extra, shared_dir=True, store=store, removal=removal, placed_after_events=i)
+                res.violations.append(fw.Violation(sig, desc + ' [store %s, removal %s placed after %d event(s) of the store]' % (store, removal, i),
+                                                   conc_case('S3', False, init, programs, result, extra)))
+    stats['shared_dir_runs'] = stats.get('shared_dir_runs', 0) + nruns
+    stats['shared_dir_programs'] = stats.get('shared_dir_programs', 0) + len(combos)
+
+
+S4_OTHERS = ('setdefault', 'set', 'update', 'get')
+
+
+def s4_programs(other, va, vb):
+    """Client 0: setdefault of the MISSING key 'ka' with default va, then a lookup.  Client 1: a call on the same key that removes nothing
+    (setdefault with another default, [] =, update, lookup), then a lookup."""
+    b = {'setdefault': ('setdefault', 'ka', vb), 'set': ('set', 'ka', vb), 'update': ('update', [('ka', vb)]), 'get': ('get', 'ka')}[other]
+    return [('k0', 0)], [[('setdefault', 'ka', va), ('get', 'ka')], [b, ('get', 'ka')]]
+
+
+def setdefault_race(ctx, res, stats, thorough):
+    """S4: setdefault of a missing key against another client's setdefault (other default) / assignment / update / lookup of the SAME key,
+    the other client's calls placed at every point inside the setdefault (after i = 0 .. all of its events), inline and file-backed
+    defaults: both clients' results and the final contents are those of some order of the calls on an OrderedDict -- in particular two
+    setdefault calls return the SAME value, the one that is stored.  (Calls that remove the key are not paired with setdefault: see the
+    assumptions.)"""
+    per_sig = {}
+    nruns = 0
+    combos = [(o, fb) for o in S4_OTHERS for fb in (False, True)]
+    for ci, (other, file_backed) in enumerate(combos):
+        if not thorough and other in ('update', 'get') and (ci + ctx.seed) % 2:
+            continue
+        va, vb = ('default-of-A-' * 3, 'default-of-B-' * 3) if file_backed else (11, 22)
+        init, programs = s4_programs(other, va, vb)
+        d = ctx.scratch('c12d')
+        try:
+            result, outcomes, final = run_conc(d, init, programs, [0] * 400)
+        finally:
+            shutil.rmtree(d, ignore_errors=True)
+        nstore = outcomes[0][0][3] if outcomes[0] else 0         # events of client 0's setdefault when nobody interferes
+        for i in range(0, nstore + 1):
+            schedule = [0] * i + [1] * 60 + [0] * 80
+            d = ctx.scratch('c12d')
+            try:
+                result, outcomes, final = run_conc(d, init, programs, schedule)
+            finally:
+                shutil.rmtree(d, ignore_errors=True)
+            if result['overflow']:
+                stats['schedules_overflowed'] = stats.get('schedules_overflowed', 0) + 1
+                continue
+            nruns += 1
+            used = result['schedule_used']
+            res.count(['sched', 'S4', other, file_backed, used], nontrivial=switches(used) >= 1)
+            seen = set()
+            for sig, desc, extra in monitor_s3(init, programs, result, outcomes, final, prefix='index_setdefault_race'):
+                if sig in seen or per_sig.get(sig, 0) >= 4:
+                    continue
+                seen.add(sig)
+                per_sig[sig] = per_sig.get(sig, 0) + 1
+                extra = dict(extra, other=other, file_backed=file_backed, placed_after_events=i)
+                res.violations.append(fw.Violation(sig, desc + ' [setdefault of a missing key against %s of the same key placed after %d event(s) of it]'
+                                                   % (other, i), conc_case('S4', not file_backed, init, programs, result, extra)))
+    stats['setdefault_race_runs'] = stats.get('setdefault_race_runs', 0) + nruns
+
+
 def gen_schedule(rng, n):
     length = rng.randint(50, 300)
     if rng.random() < 0.5:
@@ -1451,6 +1791,10 @@ def gen_s2(rng):
 def evaluate_conc(scenario, inline, init, programs, result, outcomes, final):
     if scenario == 'S1':
         return monitor_s1(init, programs, result, outcomes, inline)
+    if scenario == 'S3':
+        return monitor_s3(init, programs, result, outcomes, final)
+    if scenario == 'S4':
+        return monitor_s3(init, programs, result, outcomes, final, prefix='index_setdefault_race')
     return monitor_s2(init, programs, result, outcomes, final)
 
 
@@ -1597,7 +1941,7 @@ def finish_extra(res, stats):
         'known_hits': stats.get('known_hits', 0),
     })
     for k in ('histories_failing', 'histories_contended', 'failing_sources', 'contended_calls', 'contended_calls_that_waited',
-              'contended_failed_begin_attempts'):
+              'contended_failed_begin_attempts', 'directed_int_histories', 'shared_dir_runs', 'shared_dir_programs', 'setdefault_race_runs'):
         res.extra[k] = stats.get(k, 0)
 
 
@@ -1618,7 +1962,20 @@ RULE = ('sequential: generated histories of 10-40 mapping operations (two stream
         'list whose element k is not a pair (7, None, 1-tuple, 3-tuple, \'abc\'), a keys()/[] object whose k-th lookup raises; followed by reads and '
         'reopen/unpickle events; OrderedDict keeps the pairs delivered before the failure.  Contention (monitor only): valid-stream histories on '
         'Index.fromcache(Cache(dir, timeout=0)); every call starts while a second connection holds the write lock, released just before the '
-        'call\'s (k+1)-th BEGIN attempt (k = 1..3): every method must wait and return what OrderedDict returns, never Timeout.')
+        'call\'s (k+1)-th BEGIN attempt (k = 1..3): every method must wait and return what OrderedDict returns, never Timeout.  '
+        'Integer edges: +-2**b and +-2**b +-1 for b = 31, 53, 63, 64, and 2**32, +-2**127, 10**30, as keys, as values and inside tuple keys '
+        '(also 2.0**63, -2.0**63, 2.0**53 and tuples of them as values): drawn with probability 0.04 wherever a history draws a key or a value, '
+        'and directed histories (every kind; the quick tier gives FanoutCache.index and DjangoCache.index every other group of five) that store '
+        'each of them by [], setdefault, update and the constructor, look it up by [], get, in, the views, replace, pop / del / pop with default, '
+        'popitem, reopen and unpickle.  Shared sub-directory (S3, monitor only): two clients with a Disk whose filename() keeps all value '
+        'files in one sub-directory; client 0 stores a file-backed value ([] on a new key, [] over an inline value, setdefault, update) and looks '
+        'it up, client 1 removes its own file-backed value (text or pickle; replaced by a small value, del, pop, popitem from either end; its file '
+        'is the only one in the directory, which is pruned) and tests `in`; client 1 runs to its end after i = 0..n events of client 0\'s '
+        'store (n = number of events of that store alone); no call may raise anything but a mapping\'s KeyError and results + final items() '
+        'must be those of some real-time-compatible order of the four calls on an OrderedDict (quick tier: a third of the 19 store x removal '
+        'pairs by seed plus [] x replacement and [] x popitem(last)).  Setdefault race (S4, monitor only): setdefault of a MISSING key (inline and '
+        'file-backed default) against another client\'s setdefault with another default / [] = / update / lookup of the same key, the other client '
+        'placed after i = 0..n events of the setdefault; same requirement (two setdefault calls return the same, stored value).')
 
 
 def run(ctx):
@@ -1628,9 +1985,12 @@ def run(ctx):
     nhist, nsched = (250, 60) if ctx.quick else (2500, 600)
     histories = sequential(ctx, res, nhist, stats)
     directed_values(ctx, res, stats, histories, not ctx.quick)
+    directed_ints(ctx, res, stats, histories, not ctx.quick)
     extra_histories(ctx, res, stats, 80 if ctx.quick else 800, 40 if ctx.quick else 400)
     correspondence(ctx, res, histories, 7000 if ctx.quick else 100000)
     concurrent(ctx, res, nsched, stats)
+    shared_dir_race(ctx, res, stats, not ctx.quick)
+    setdefault_race(ctx, res, stats, not ctx.quick)
     machine_correspondence(ctx, res, 40 if ctx.quick else 400)
     runs = []
     res.witnessed[KNOWN_SIG] = witness_lookup_overlapping_replace(runs)
@@ -1646,8 +2006,11 @@ def search(ctx, broken):
     nhist, nsched = (700, 150) if ctx.quick else (3000, 600)
     sequential(ctx, res, nhist, stats)
     directed_values(ctx, res, stats, [], True)
+    directed_ints(ctx, res, stats, [], True)
     extra_histories(ctx, res, stats, 240, 120)
     concurrent(ctx, res, nsched, stats)
+    shared_dir_race(ctx, res, stats, True)
+    setdefault_race(ctx, res, stats, True)
     res.witnessed[KNOWN_SIG] = witness_lookup_overlapping_replace()
     return res
 
@@ -1714,18 +2077,21 @@ def replay(payload):
         print('Index(directory).cache.eviction_policy =', repr(pol))
         return pol == 'none'
     if check == 'index_conc':
-        scenario = 'S1' if case['scenario'] != 'S2' else 'S2'
+        scenario = case['scenario'] if case['scenario'] in ('S2', 'S3', 'S4') else 'S1'
         inline = bool(case.get('inline'))
         init = [(ev(k), ev(v)) for k, v in case['init']]
         programs = [[tuple([op[0]] + [ev(a) for a in op[1:]]) for op in p] for p in case['programs']]
+        disk = shared_dir_disk() if case.get('shared_dir') else None
         d = tempfile.mkdtemp(prefix='c12r-')
         try:
-            result, outcomes, final = run_conc(d, init, programs, case['schedule'])
+            result, outcomes, final = run_conc(d, init, programs, case['schedule'], disk=disk)
         finally:
             shutil.rmtree(d, ignore_errors=True)
         print('scenario %s%s, %d clients, %d steps' % (scenario, ' (inline)' if inline else '', len(programs), result['steps']))
-        for c, e, _ in result['log']:
-            print('  client %d  %s' % (c, e))
+        if disk is not None:
+            print('every client opens the directory with a Disk whose filename() keeps all value files in ONE sub-directory (%s)' % disk.__name__)
+        for c, e, det in result['log']:
+            print('  client %d  %s%s' % (c, e, '  ' + os.path.basename(str(det[0])) if e.startswith('file:') and det else ''))
         for cid, oc in enumerate(outcomes):
             for op, o, _, _ in (oc or []):
                 print('  client %d: %r -> %s %r' % (cid, op, o[0], o[1]))
@@ -1736,7 +2102,8 @@ def replay(payload):
         for sig, desc, _ in found:
             print('MONITOR %s: %s' % (sig, desc))
         if not found:
-            print('expected: every lookup of a continuously present key succeeds / popitem accounting balances; observed: it does')
+            print('expected: every lookup of a continuously present key succeeds / popitem accounting balances / every call returns what some '
+                  'order of the calls gives on an OrderedDict; observed: it does')
         return not found
     print('replay payload:', payload)
     return True
